@@ -135,6 +135,9 @@ impl Property for C04 {
     fn shard_size(&self) -> u64 {
         10
     }
+    fn shrink_iters(&self) -> u32 {
+        100
+    }
     fn classes(&self) -> Vec<ClassSpec> {
         self.classes.iter().map(|c| c.0.clone()).collect()
     }
